@@ -106,6 +106,22 @@ fn run(def: &'static PropDef, tier: Tier) -> i32 {
                 detail: format!("worker shard {} died: {}", c.shard, c.status),
                 tags: vec!["symptom=process_crash".into()],
             });
+        } else if props::crash_is_violation_if_reproduced(def.id) && c.last_case.is_some() && crash_violations.len() < 4 {
+            // The statement of this property implies that the subject keeps answering (C07: "after
+            // exhaustion at any point the manager still answers correctly"), so a subject that takes
+            // the process down (stack overflow on a corrupted diagram = SIGABRT) violates it - but only
+            // if the death is caused by the recorded case: re-execute that one case twice in fresh
+            // subprocesses; both must die from a signal, otherwise it stays a machinery problem.
+            let case_text = c.last_case.clone().unwrap();
+            match serde_json::from_str::<Value>(&case_text) {
+                Ok(case) if crash_reproduces(def, tier, &case) => crash_violations.push(infra::Failure {
+                    case,
+                    symptom: "process_crash".into(),
+                    detail: format!("worker shard {} died: {}; re-executing the recorded case alone killed a fresh process twice", c.shard, c.status),
+                    tags: vec!["symptom=process_crash".into(), "crash_reproduced_by_replay".into()],
+                }),
+                _ => out.machinery_errors.push(format!("worker shard {} died ({}); last case (death NOT reproduced by replaying it alone): {:?}", c.shard, c.status, c.last_case)),
+            }
         } else {
             out.machinery_errors.push(format!("worker shard {} died ({}); last case: {:?}", c.shard, c.status, c.last_case));
         }
@@ -191,6 +207,34 @@ fn run(def: &'static PropDef, tier: Tier) -> i32 {
         println!("VIOLATION property={} replay={}", def.id, path);
     }
     1
+}
+
+/// Re-execute one recorded case alone, twice, each time in a fresh subprocess (`run <ID> <tier> --replay`).
+/// True iff both subprocesses were killed by a signal (no exit code).
+fn crash_reproduces(def: &'static PropDef, tier: Tier, case: &Value) -> bool {
+    let dir = format!("{}/replays/{}", infra::root(), def.id);
+    let _ = std::fs::create_dir_all(&dir);
+    let path = format!("{}/crash-{:016x}.json", dir, infra::hash64(&case.to_string()));
+    let body = json!({"property": def.id, "tier": tier.as_str(), "case": case, "symptom": "process_crash"});
+    if std::fs::write(&path, serde_json::to_string_pretty(&body).unwrap()).is_err() {
+        return false;
+    }
+    let exe = match std::env::current_exe() {
+        Ok(e) => e,
+        Err(_) => return false,
+    };
+    for _ in 0..2 {
+        let st = std::process::Command::new(&exe)
+            .args(["run", def.id, tier.as_str(), "--replay", &path])
+            .stdout(std::process::Stdio::null())
+            .stderr(std::process::Stdio::null())
+            .status();
+        match st {
+            Ok(st) if st.code().is_none() => {}
+            _ => return false,
+        }
+    }
+    true
 }
 
 fn replay(def: &'static PropDef, tier: Tier, path: &str) -> i32 {
